@@ -1,5 +1,5 @@
 CRDT = {"dir": "consensus/crdt", "pkgname": "crdt"}
-FILES = ["crdt/c02_rig_test.go", "crdt/c02_batch_test.go", "crdt/c02_set_test.go", "crdt/c02_net_test.go"]
+FILES = ["crdt/c02_rig_test.go", "crdt/c02_batch_test.go", "crdt/c02_set_test.go", "crdt/c02_net_test.go", "crdt/c02_restart_probe_test.go"]
 
 SPEC = {
     "go": [dict(CRDT, files=FILES, test="TestVerifC02Batch", n_quick=120, n_thorough=4000,
@@ -21,7 +21,7 @@ SPEC = {
             "list only each other in trusted_peers and are connected only through the relay B (trust-all, trusted by nobody), and one "
             "untrusted-peer scenario; the pinsets of every pair of peers that trust each other are compared. non-trivial = a history with >= 2 "
             "operations on one CID (H1), >= 2 replicas writing one CID (H2), >= 3 deltas (H3); distinct = distinct canonical JSON of the input",
-    "codes": {1: "model_eq_impl (C02)", 10: "spec_okb C02: accepted operations are taken in submission order, none lost",
+    "codes": {1: "model_eq_impl (C02): H1 replay of the trace on the timed batch machine + set; H2 replay per step; H3 predicted set of merged blocks (trust + forwarding + ancestors), own blocks rebuilt by the write path, pinset and tracker calls", 10: "spec_okb C02: accepted operations are taken in submission order, none lost",
               11: "spec_okb C02: refusal exactly when the queue is full, a refused operation has no effect",
               12: "spec_okb C02: commit when the batch reaches its size limit",
               13: "spec_okb C02: commit when the batch reaches its age limit (counted from the first operation of the batch: every accepted operation of a "
@@ -45,7 +45,7 @@ SPEC = {
                 "harness/crdt/c02_set_test.go: harness Broadcaster (manual inbox) and DAGSyncer (per-replica map, fallback fetch); NumWorkers=1 so that one delta is merged at a time",
                 "go-ds-crdt v0.1.21 DAG walk, heads bookkeeping, pubsub and bitswap delivery are not modelled (merge order and delta contents are taken from the observation; the set logic is modelled)",
                 "value bytes are compared through their rank in bytes.Compare order within a case"],
-    "level_text": "Theorems (Props/C02.v, 34, all closed) over Gallina transcriptions of consensus.go LogPin/LogUnpin/batchWorker (event machine with Go<1.23 timer "
+    "level_text": "Theorems (Props/C02.v, 37, all closed) over Gallina transcriptions of consensus.go LogPin/LogUnpin/batchWorker (event machine with Go<1.23 timer "
                   "semantics, every schedule and every Add/Rm/Commit outcome; a timed refinement with an explicit clock in which Reset sets an expiry: the age timer "
                   "of a pending batch always expires MaxBatchAge after its first operation was taken, and in every timely schedule no operation waits longer than "
                   "MaxBatchAge + latency), of go-ds-crdt v0.1.21 set.go + the write path of crdt.go as written (every delta list, every delivery order, every commit "
